@@ -241,9 +241,21 @@ def main(argv):
             import traceback
             harness_errors.append(f'validation crashed: {type(e).__name__}: {e} '
                                   + traceback.format_exc(limit=6))
-    functions = []
-    if hasattr(mod, 'functions_encoded'):
-        functions = mod.functions_encoded()
+    # which gemato functions the harnesses enter: traced on the concrete twin witnesses
+    functions = set()
+    seen_groups = set()
+    for sm in [x for x in samples if x.get('witness_args')]:
+        cnd = next((c for c in conds if c.name == sm['condition']), None)
+        if cnd is None or cnd.group in seen_groups or len(seen_groups) >= 8:
+            continue
+        seen_groups.add(cnd.group)
+        os.environ['VF_TRACE'] = '1'
+        try:
+            tr = worker(modname, tier, cnd.name, 'concrete', sm['witness_args'], wall=300)
+        finally:
+            os.environ.pop('VF_TRACE', None)
+        functions.update(tr.get('functions', []))
+    functions = sorted(functions)
 
     for name in inconclusive:
         print(f'INCONCLUSIVE property={prop} condition={name}')
